@@ -71,6 +71,8 @@ impl<T: Eq + PartialOrd + Send + Sync, A: Clone> Graph<T, A> {
     // number of edge objects in the name-keyed store `edges` (what get_all_edges() flattens); left uninterpreted:
     // get_all_edges is a values().flatten().collect() pipeline outside the verifier's reach (A5)
     pub uninterp spec fn stored_edge_count(&self) -> nat;
+    // the edges get_all_edges() returns, in the order it returns them (uninterpreted, A5)
+    pub uninterp spec fn all_edges_seq(&self) -> Seq<Edge<T, A>>;
 
     // every traversal entry names an existing position (what the algorithm kernels index with)
     pub open spec fn wf_rows(&self) -> bool {
